@@ -83,7 +83,7 @@ return ok
 
 QUICK = [
     [], ["M_dict"], ["ab_gt"], ["zz"], ["ab_gt", "M_dict"], ["ab_gt", "lL_eq"], ["ab_gt", "ab_str"], ["root_keys", "aci"],
-    ["ab_gt", "M_dict", "lL_eq"], ["root_keys", "aci", "ab_str"], ["lL_eq", "ab_gt", "zz"], ["X_len", "M_dict", "root_keys"],
+    ["ab_gt", "M_dict", "lL_eq"], ["root_keys", "aci", "ab_str"], ["lL_eq", "ab_gt", "zz"], ["X_len", "root_keys"],
     ["acL_gt", "ab_str", "L_x"], ["M_truthy", "X_len"], ["M_dict", "ab_gt", "zz"], ["zz", "L_x"], ["aci", "acL_gt"],
 ]
 
